@@ -186,8 +186,18 @@ def rec_ids(recs):
 
 # ------------------------------------------------------------------ the check
 
-ORD_S2_QUICK = [[0, 1, 2, 3], [3, 2, 1, 0], [1, 2, 0, 3]]
-ORD_S4_QUICK = [[0, 1, 2, 3], [3, 1, 2, 0]]
+ORD_S2_QUICK = [[0, 1, 2, 3], [3, 2, 1, 0], [1, 2, 0, 3], [2, 0, 3, 1], [1, 0, 3, 2], [3, 0, 1, 2]]
+ORD_S4_QUICK = [[0, 1, 2, 3], [3, 1, 2, 0], [2, 3, 0, 1], [1, 0, 3, 2]]
+
+
+def reorder(lines, how):
+    """Record orders a multi-process run may leave (every record is the output of its own chunk): preamble first, then the
+    parameter / interaction records as written ('asis'), reversed ('rev') or rotated by half ('rot')."""
+    head, body = lines[:2], lines[2:]
+    if how == 'rev': body = body[::-1]
+    elif how == 'rot': body = body[len(body) // 2:] + body[:len(body) // 2]
+    elif how != 'asis': raise ValueError(how)
+    return head + body
 
 
 class C02(Check):
@@ -230,16 +240,16 @@ class C02(Check):
     def histories(self, tier):
         quick = tier == 'quick'
         for kind in ('plain', 'gz'):
-            for lines in ('asis', 'rev'):
+            for lines in ('asis', 'rev') if quick else ('asis', 'rev', 'rot'):
                 yield {'shape': 'S1', 'order': [0], 'lines': lines, 'kind': kind, 'level2': not quick}
         o2 = ORD_S2_QUICK if quick else [list(p) for p in itertools.permutations(range(4))]
         o4 = ORD_S4_QUICK if quick else [list(p) for p in itertools.permutations(range(4))]
         for shape, orders in (('S2', o2), ('S4', o4)):
             for oi, order in enumerate(orders):
                 for kind in ('plain', 'gz'):
-                    yield {'shape': shape, 'order': order, 'lines': 'asis', 'kind': kind}
-                    if oi < 1 or (not quick and oi in (7, 23)):
-                        yield {'shape': shape, 'order': order, 'lines': 'rev', 'kind': kind}
+                    for lines in ('asis', 'rev', 'rot'):
+                        if quick and (lines == 'rot' or (lines == 'rev' and oi > 0)): continue
+                        yield {'shape': shape, 'order': order, 'lines': lines, 'kind': kind}
 
     def cases(self, tier):
         for h in self.histories(tier):
@@ -307,12 +317,10 @@ class C02(Check):
         if L1 != L2 or any(table_diff(s1[n], s2[n]) for n, _ in TABLES) or not same(s1['experiment'], s2['experiment']):
             raise HarnessError(f'two uninterrupted runs of {key} differ (captured nondeterminism)')
         L = L1
-        if h['lines'] == 'rev':
-            # what a multi-process run may leave: the parameter / interaction records in another order (every record is the
-            # output of its own chunk); the real records are re-written through the real sink, preamble first
+        if h['lines'] != 'asis':
+            # what a multi-process run may leave: the real records in another order, re-written through the real sink
             text = gz_members(L)[0] if gz else L
-            lines = [l for l in text.decode('utf-8').split('\n') if l]
-            lines = lines[:2] + lines[2:][::-1]
+            lines = reorder([l for l in text.decode('utf-8').split('\n') if l], h['lines'])
             os.unlink(path)
             DiskSink(path, batch=1).write(lines)
             with open(path, 'rb') as f: L = f.read()
